@@ -461,9 +461,13 @@ func exec(x *inst, o op, flag bool) (pan interface{}, direct string) {
 		n := newAcct()
 		x.shared[o.A] = false
 		if prev != nil {
-			// the plain balance is carried over; tokens, nonce, code, storage, credits and the suicide mark are not
-			// (resetObjectChange itself dirties nothing; the caller's SetNonce does)
+			// the plain balance and (since fix c60f6bc, see C06) the token balances are carried over; nonce, code,
+			// storage, credits and the suicide mark are not (resetObjectChange itself dirties nothing; the caller's
+			// SetNonce does)
 			n.bal = prev.bal
+			for k, v := range prev.tok {
+				n.tok[k] = new(big.Int).Set(v)
+			}
 			n.nonce = 1
 		}
 		m.accts[o.A] = n
